@@ -1,7 +1,7 @@
 (* C11/ProofsJson — lemmas behind the json theorems of Properties/C11.v (all under [leaf_laws L]). *)
 From Coq Require Import List NArith ZArith Lia Arith Bool.
 From Verif Require Import Base.Outcome Wire.Item C11.Seq.
-From Verif Require Import Wire.Json Wire.JsonRT Wire.JsonSkip.
+From Verif Require Import Wire.Json Wire.JsonRT Wire.JsonSkip Wire.JsonLeaf.
 From Verif Require C11.InstJson.
 Import ListNotations.
 
@@ -52,3 +52,12 @@ Proof.
   - split; [reflexivity|]. cbn [inp st0]. lia.
   - exists ns, s'. split; [exact H1|split; [exact H2|split; [exact H3|exact H4]]].
 Qed.
+
+(* ---- the same for the C09 leaf: string and integer laws discharged (Wire/JsonLeaf.v c09_leaf_laws),
+   only the float / time text oracle laws remain ---- *)
+Definition json_skip_c09 (O : oracle) (FT : float_time_laws (c09_leaf_of O)) :=
+  json_skip_lemma (c09_leaf_of O) (c09_leaf_laws O FT).
+Definition json_raw_c09 (O : oracle) (FT : float_time_laws (c09_leaf_of O)) :=
+  json_raw_lemma (c09_leaf_of O) (c09_leaf_laws O FT).
+Definition json_seq_c09 (O : oracle) (FT : float_time_laws (c09_leaf_of O)) :=
+  json_seq_lemma (c09_leaf_of O) (c09_leaf_laws O FT).
